@@ -48,6 +48,7 @@ class Heap:
         self.touched = set()   # keys written explicitly or havocked since entry
         self.opaque = set()    # keys havocked by opaque calls (frame not checkable)
         self.frames = {}       # key -> [(havocked array, array before, frontier)]: rows <= frontier equal
+        self.opaque_any = False
 
     def copy(self):
         h = Heap(self.types)
@@ -58,6 +59,7 @@ class Heap:
         h.touched = set(self.touched)
         h.opaque = set(self.opaque)
         h.frames = dict(self.frames)
+        h.opaque_any = self.opaque_any
         return h
 
     def const(self, tag, key):
@@ -125,6 +127,8 @@ class Heap:
                 self.touched.add(key)
                 if opaque:
                     self.opaque.add(key)
+        if opaque:
+            self.opaque_any = True
 
 
 def restrict_refs(ev, key):
@@ -293,7 +297,11 @@ class State:
             if rng is not None:
                 self.assume(z3.And(t >= rng[0], t <= rng[1]))
         elif kind == 'ref':
-            self.assume(z3.And(t >= 0, t <= (self.alloc0 if known_old else self.frontier)))
+            if self.cx.types.kind(role[1]) == 'ptr':
+                # pointers may also be (negative) handles of interior pointers
+                self.assume(t <= (self.alloc0 if known_old else self.frontier))
+            else:
+                self.assume(z3.And(t >= 0, t <= (self.alloc0 if known_old else self.frontier)))
         elif kind == 'len':
             self.assume(z3.And(t >= 0, t <= MAXLEN))
         elif kind == 'tag':
@@ -373,6 +381,10 @@ class State:
             return v.loc
         types = self.cx.types
         et = types.elem(v.t)
+        from .values import loc_of_handle
+        l = loc_of_handle(v.term)
+        if l is not None:
+            return Loc(l.fam, l.tk, l.ref, l.steps, et)
         return self.loc_for(et, v.term)
 
     def loc_for(self, et, ref):
